@@ -384,6 +384,8 @@ def run(ctx: Ctx):
     # lists / tuples / dict displays / constructor calls nested in each other: a run without fix keeps the value (update is value preserving) vs Model/Nest.v
     from .. import nestassign as na
     na.check_part(ctx, 300 if not ctx.thorough else 4000, "C05", unm_choices=(0, 0, 0, 0.2))
+    # snapshots that are evaluated but never compared, nested values: what update does vs Model/Undecided.v
+    na.check_never(ctx, 200 if not ctx.thorough else 2500, "C05")
     # D: the category of a call site is decided per file: the same module under three names in one session ends up as it does alone, for every category
     from .. import twins
     twins.check(ctx, "C05", [TWIN_SRC], flag_sets=(("create",), ("fix",), ("trim",), ("update",), ("create", "fix", "trim", "update")))
@@ -403,6 +405,9 @@ def replay(ctx: Ctx, data):
     if isinstance(data.get("case"), dict) and data["case"].get("kind") == "nest":
         from .. import nestassign as na
         return na.replay_case(data["case"])
+    if isinstance(data.get("case"), dict) and data["case"].get("kind") == "never":
+        from .. import nestassign as na
+        return na.replay_never(data["case"])
     if isinstance(data.get("case"), dict) and data["case"].get("kind") == "call":
         from .. import callassign as ca
         return ca.replay_case(data["case"])
